@@ -118,21 +118,91 @@ func (o *C12Oracle) After(r *Runner, kind string, op Op, started bool) {
 	viol := func(sig, detail string, impl, want interface{}) {
 		r.Run.Violate(hx.Violation{Sig: sig, Detail: detail, Case: r.H, Impl: impl, Want: want})
 	}
+	// operations injected into the run change pin counts too: the run itself must leave "before + injected"
+	want := func(addr string, pc uint64) uint64 { return uint64(int64(pc) + r.PinDelta[addr]) }
+	// chunks of an evicted file that was TOUCHED (its root in dirtyAddresses) when its DelFile call started:
+	// the closure must give up on such a file, so whatever happens to these chunks is due to a run that
+	// ignored the touch — reported under its own class below, not under the classes of untouched files
+	touched := map[string]bool{}
+	for _, e := range r.GcEntries {
+		if e.Dirty && evicted[e.Root] {
+			touched[e.Root] = true
+			for i := range r.Files {
+				if r.Files[i].Root.ByteString() == e.Root {
+					for _, c := range r.Files[i].Set {
+						touched[string(c)] = true
+					}
+				}
+			}
+		}
+	}
 	for addr, pc := range b.Pin {
 		r.Run.OracleChecked(2)
-		if pc == 0 {
+		if pc == 0 || touched[addr] {
 			continue
 		}
 		if b.Data[addr] && !a.Data[addr] {
 			viol("gc:pinned-chunk-deleted:"+class(addr), fmt.Sprintf("chunk %x had pin count %d before the run and is gone after it", addr, pc), "deleted", "kept")
 		}
-		if a.Pin[addr] != pc {
-			viol("gc:pin-count-changed:"+class(addr), fmt.Sprintf("pin count of %x: %d before the run, %d after", addr, pc, a.Pin[addr]), a.Pin[addr], pc)
+		if a.Pin[addr] != want(addr, pc) {
+			viol("gc:pin-count-changed:"+class(addr), fmt.Sprintf("pin count of %x: %d before the run (%+d by injected operations), %d after", addr, pc, r.PinDelta[addr], a.Pin[addr]), a.Pin[addr], want(addr, pc))
 		}
 	}
 	for addr := range a.Pin {
-		if _, ok := b.Pin[addr]; !ok {
+		if _, ok := b.Pin[addr]; !ok && r.PinDelta[addr] <= 0 {
 			viol("gc:pin-count-changed:pin-appeared", fmt.Sprintf("pin entry of %x appeared during the run", addr), a.Pin[addr], 0)
+		}
+	}
+	// the interleaving points: what was pinned when the DelFile call of a candidate started
+	for _, e := range r.GcEntries {
+		if !evicted[e.Root] {
+			continue
+		}
+		chunks := []string{e.Root}
+		for i := range r.Files {
+			if r.Files[i].Root.ByteString() == e.Root {
+				for _, c := range r.Files[i].Set {
+					if string(c) != e.Root {
+						chunks = append(chunks, string(c))
+					}
+				}
+				break
+			}
+		}
+		for _, c := range chunks {
+			r.Run.OracleChecked(1)
+			pinnedAfterClosure := e.Post != nil && e.Post.Pin[c] != e.S.Pin[c]
+			if pinnedAfterClosure {
+				// pinned between the closure of its file and the commit of the run's batch
+				if e.Post.Pin[c] > 0 && e.Post.Data[c] && !a.Data[c] {
+					viol("gc:pinned-chunk-deleted:pinned-between-closure-and-commit", fmt.Sprintf("chunk %x was pinned (count %d) after the DelFile call of its file %x returned and before the run committed; it is gone after the run", c, e.Post.Pin[c], e.Root), "deleted", "kept")
+				}
+				continue
+			}
+			pc := e.S.Pin[c]
+			if pc == 0 || !e.S.Data[c] {
+				continue
+			}
+			deleted, changed := !a.Data[c], a.Pin[c] != pc
+			if !deleted && !changed {
+				continue
+			}
+			switch {
+			case e.Dirty:
+				if deleted {
+					viol("gc:pinned-chunk-deleted:file-touched-before-its-closure", fmt.Sprintf("chunk %x had pin count %d when the DelFile call of its file %x started; the file had been touched since candidate selection (root in dirtyAddresses) and was evicted all the same", c, pc, e.Root), "deleted", "kept")
+				}
+				if changed {
+					viol("gc:pin-count-changed:file-touched-before-its-closure", fmt.Sprintf("pin count of %x: %d when the DelFile call of its touched file %x started, %d after the run", c, pc, e.Root, a.Pin[c]), a.Pin[c], pc)
+				}
+			case b.Pin[c] == pc:
+				// pinned like this before the run already: reported above
+			default:
+				// pinned during the run, before the closure, without touching the root (no file context)
+				if deleted {
+					viol("gc:pinned-chunk-deleted:"+class(c), fmt.Sprintf("chunk %x had pin count %d when the DelFile call of its file %x started and is gone after the run", c, pc, e.Root), "deleted", "kept")
+				}
+			}
 		}
 	}
 	for addr := range r.Uploaded {
